@@ -68,7 +68,33 @@ class Session:
             return "sat", s.model()
         if r == z3.unsat:
             return "unsat", None
+        # z3 gave up: bit-vector arithmetic that stalls bit-blasting is often immediate for cvc5's integer encoding
+        v = self.cvc5_verdict(s.to_smt2(), timeout_s)
+        if v == "unsat":
+            self.report.extra["decided_by_cvc5"] = self.report.extra.get("decided_by_cvc5", 0) + 1
+            return "unsat", None
         return "unknown", None
+
+    def cvc5_verdict(self, script, timeout_s):
+        import tempfile
+        script = "(set-logic ALL)\n" + script
+        for opts in (["--solve-bv-as-int=sum"], []):
+            try:
+                t0 = time.time()
+                p = subprocess.run(["cvc5", "--lang", "smt2", f"--tlimit={int(timeout_s * 1000)}"] + opts, input=script, capture_output=True,
+                                   text=True, timeout=timeout_s + 10)
+                self.report.solver_s += time.time() - t0
+                self.report.queries += 1
+            except Exception:
+                continue
+            out = [l for l in p.stdout.strip().split("\n") if l in ("sat", "unsat", "unknown")]
+            if "(error" in p.stdout or "(error" in p.stderr:
+                continue
+            if out and out[0] == "unsat":
+                return "unsat"
+            if out and out[0] == "sat":
+                return "sat"
+        return "unknown"
 
     def reachable(self, assumptions, timeout_s=30):
         return self.check(assumptions, timeout_s)[0] != "unsat"
